@@ -58,20 +58,21 @@ def gen_case(rng: random.Random, tier: str):
         steps.append({"n": k, "mode": mode, "uses": uses, "extra_commit": rng.random() < 0.2})
         i += k
     return {"cfg": cfg, "defs": defs, "selfref": rng.randrange(n + 1) if rng.random() < 0.3 else None, "steps": steps,
-            "data_seed": rng.getrandbits(32), "pre_use": rng.random() < 0.3}
+            "data_seed": rng.getrandbits(32), "pre_use": rng.random() < 0.3, "nocompile": rng.random() < 0.2}
 
 
-def _root_text(defs, name, selfref, typedef=False):
+def _root_text(defs, name, selfref, typedef=False, nocompile=False):
     root = copy.deepcopy(defs["structs"][-1])
     root["name"] = name
     if selfref is not None:
         root["fields"].insert(selfref, {"name": "self_next", "type": name, "inline": None, "ptr": 1, "dims": [], "bits": None})
     helpers = {"defines": defs["defines"], "enums": defs["enums"], "structs": defs["structs"][:-1]}
     text = gen.render(helpers)
+    flag = "#[nocompile]\n" if nocompile else ""  # the definition language's per-structure opt-out of the compiled reader
     if typedef:
         body = gen.render_struct_body(root)
-        return text, f"typedef struct {{\n{body}}} {name};\n"
-    return text, gen.render_struct(root)
+        return text, f"{flag}typedef struct {{\n{body}}} {name};\n"
+    return text, flag + gen.render_struct(root)
 
 
 def _behaviour(T, inputs):
@@ -185,7 +186,8 @@ def run_case(case, stats):
     # ---- route A: top-level struct (parser pre-registers, extends, commits)
     try:
         csA = gen.make_cs(cfg)
-        htext, rtext = _root_text(defs, "R", sr)
+        nc = bool(case.get("nocompile"))
+        htext, rtext = _root_text(defs, "R", sr, nocompile=nc)
         csA.load(htext + rtext, compiled=cfg["compiled"], align=cfg["align"])
         RA = csA.R
     except Exception as ex:  # noqa: BLE001
@@ -209,7 +211,7 @@ def run_case(case, stats):
     if sr is None:
         try:
             csB = gen.make_cs(cfg)
-            htext, ttext = _root_text(defs, "R", None, typedef=True)
+            htext, ttext = _root_text(defs, "R", None, typedef=True, nocompile=nc)
             csB.load(htext + ttext, compiled=cfg["compiled"], align=cfg["align"])
             RB = csB.R
         except Exception as ex:  # noqa: BLE001
@@ -224,14 +226,14 @@ def run_case(case, stats):
 
     # ---- route C: add_field / commit history
     csC = gen.make_cs(cfg)
-    htext, tmptext = _root_text(defs, "Tmp", sr)
+    htext, tmptext = _root_text(defs, "Tmp", sr, nocompile=nc)
     try:
         csC.load(htext + tmptext, compiled=cfg["compiled"], align=cfg["align"])
     except Exception as ex:  # noqa: BLE001
         raise Discard("tmp_load_fail_" + type(ex).__name__)
     harvested = [(f.name, f.type, f.bits) for f in csC.Tmp.__fields__]
     st = csC._make_struct("R", [], align=cfg["align"])
-    if cfg["compiled"]:
+    if cfg["compiled"] and not nc:
         st = compiler.compile(st)
     csC.add_type("R", st)
     if case["pre_use"]:
